@@ -378,13 +378,26 @@ func (vc *FnVC) enterBlock(fr *frame, b *ssa.BasicBlock) *state {
 	li.frameObjs = nil
 	li.hasFrame = len(li.frames) > 0 && !li.modAll
 	if li.hasFrame {
+		li.frameSkip = map[string]bool{}
 		for _, c := range li.frames {
 			for _, m := range c.Mods {
+				// heap(T.f): the whole heap array is outside the loop frame (objects not enumerable)
+				if call, ok := m.(*ECall); ok {
+					if id, ok := call.Fun.(*EIdent); ok && id.Name == "heap" && len(call.Args) == 1 {
+						name := call.Args[0].String()
+						for _, h := range vc.eng.heapNames() {
+							if strings.HasSuffix(h, ":"+name) || strings.HasSuffix(h, "."+name) || strings.HasSuffix(h, "/"+name) {
+								li.frameSkip[h] = true
+							}
+						}
+						continue
+					}
+				}
 				li.frameObjs = append(li.frameObjs, vc.evalInt(fr, st, vc.old, m, nil))
 			}
 		}
 		for _, h := range sortedKeys(li.modHeap) {
-			if h == "$alloc" || strings.HasPrefix(h, "G:") {
+			if h == "$alloc" || strings.HasPrefix(h, "G:") || li.frameSkip[h] {
 				continue
 			}
 			vc.assume("true", vc.frameFact(hs.heap[h], vc.hget(st, h), li.frameObjs, st.alloc))
@@ -455,7 +468,7 @@ func (vc *FnVC) addEdge(fr *frame, from, to *ssa.BasicBlock, cond string, st *st
 		}
 		if li.hasFrame {
 			for _, h := range sortedKeys(li.modHeap) {
-				if h == "$alloc" || strings.HasPrefix(h, "G:") {
+				if h == "$alloc" || strings.HasPrefix(h, "G:") || li.frameSkip[h] {
 					continue
 				}
 				cur, head := vc.hget(bst, h), li.headSt.heap[h]
@@ -502,7 +515,15 @@ func (vc *FnVC) step(fr *frame, st *state, b *ssa.BasicBlock, ins ssa.Instructio
 			return
 		}
 		vc.lockCheck(fr, st, vc.deref(a), true, x)
-		vc.storeLV(st, vc.deref(a), vc.term(fr, st, v))
+		dlv := vc.deref(a)
+		vc.storeLV(st, dlv, vc.term(fr, st, v))
+		if v.fn != nil && strings.HasPrefix(dlv.heap, "H:") && len(dlv.path) == 0 && dlv.alloc == nil {
+			// remember which function constant this heap term holds at this object (resolves s.step(s, c) after s.step = f)
+			if vc.fnHints == nil {
+				vc.fnHints = map[string]*ssa.Function{}
+			}
+			vc.fnHints[vc.hget(st, dlv.heap)+"|"+dlv.ref] = v.fn
+		}
 	case *ssa.UnOp:
 		vc.unop(fr, st, x)
 	case *ssa.BinOp:
@@ -823,6 +844,12 @@ func (vc *FnVC) unop(fr *frame, st *state, x *ssa.UnOp) {
 		vc.lockCheck(fr, st, lv, false, x)
 		t := vc.loadLV(st, lv)
 		r := fr.set(vc, x, t)
+		if strings.HasPrefix(lv.heap, "H:") && len(lv.path) == 0 && lv.alloc == nil && vc.fnHints != nil {
+			if f, ok := vc.fnHints[vc.hget(st, lv.heap)+"|"+lv.ref]; ok {
+				r.fn = f
+				fr.vals[x] = r
+			}
+		}
 		vc.assume("true", S.RangeOf(x.Type(), r.t))
 		if _, ok := x.Type().Underlying().(*types.Slice); ok && lv.anon == "" {
 			fr.prov[x] = lv
@@ -1325,6 +1352,46 @@ func (vc *FnVC) specModSet(c *ssa.CallCommon) (modSet, bool) {
 			case *EUnary:
 				// *p : by-reference argument, handled by the caller through the argument's location
 				ms.pureArgs = false
+			case *ECall:
+				id, _ := x.Fun.(*EIdent)
+				switch {
+				case id != nil && id.Name == "heap" && len(x.Args) == 1:
+					name := x.Args[0].String()
+					if es, ok := x.Args[0].(*EStr); ok {
+						name = es.V
+					}
+					for _, h := range vc.eng.heapNames() {
+						if strings.HasSuffix(h, ":"+name) || strings.HasSuffix(h, "."+name) || strings.HasSuffix(h, "/"+name) {
+							ms.heaps[h] = true
+						}
+					}
+				case id != nil && id.Name == "mapof" && len(x.Args) == 1:
+					// mapof(p.f): the contents of the map held in field f of parameter p
+					sel, ok := x.Args[0].(*ESel)
+					var mt *types.Map
+					if ok {
+						if pid, ok := sel.X.(*EIdent); ok {
+							if t := ptype(pid.Name); t != nil {
+								if pt, ok := t.Underlying().(*types.Pointer); ok {
+									if st, ok := pt.Elem().Underlying().(*types.Struct); ok {
+										for i := 0; i < st.NumFields(); i++ {
+											if st.Field(i).Name() == sel.Name {
+												mt, _ = st.Field(i).Type().Underlying().(*types.Map)
+											}
+										}
+									}
+								}
+							}
+						}
+					}
+					if mt == nil {
+						return modSet{all: true}, true
+					}
+					p, v, l := vc.mapHeaps(mt)
+					ms.heaps[p], ms.heaps[v], ms.heaps[l] = true, true, true
+				default:
+					return modSet{all: true}, true
+				}
 			case *EIdent:
 				if gt, ok := vc.eng.db.GhostVars[x.Name]; ok {
 					h := "G:ghost." + x.Name
